@@ -84,6 +84,14 @@ def valuations(doms, rng, cap):
         yield dict(zip([k for k, _ in doms], c))
 
 
+def cell(counter):
+    """contents of an input cell.  Data never reaches control in LoopIR (indices, bounds, guards and sizes are
+    control-typed), so the outcome kind does not depend on it; small integers would make exact rational arithmetic
+    explode under repeated products (x = x * x + 1 in a loop), hence: a few small values, mostly poison"""
+    k = next(counter)
+    return None if k % 3 else (k // 3) % 3
+
+
 def build_input(p, val, cfg_types, rng):
     """input description (export.render_input format) for one control valuation, or None if a buffer extent
     is not positive / not evaluable (such an input cannot satisfy the signature)"""
@@ -98,7 +106,7 @@ def build_input(p, val, cfg_types, rng):
         elif isinstance(t, T.Bool):
             args.append({"kind": "val", "v": ("b", val[("arg", k)])})
         elif t.is_real_scalar():
-            args.append({"kind": "buf", "off": 0, "shape": [], "strides": [], "cells": [next(counter)]})
+            args.append({"kind": "buf", "off": 0, "shape": [], "strides": [], "cells": [cell(counter)]})
         elif isinstance(t, T.Tensor):
             shape = [export.eval_index(d, env) for d in t.hi]
             if any(s is None or s < 1 for s in shape):
@@ -118,7 +126,7 @@ def build_input(p, val, cfg_types, rng):
                     acc *= n
                 off, total = 0, acc
             args.append({"kind": "buf", "off": off, "shape": shape, "strides": strides,
-                         "cells": [next(counter) for _ in range(total)]})
+                         "cells": [cell(counter) for _ in range(total)]})
         else:
             return None
     cfg = {}
